@@ -209,8 +209,16 @@ pub struct Violation {
 }
 
 impl Violation {
+    /// `Cxx:<signature>:<witness json>`; top-level witness keys starting with `_` (replay
+    /// material such as a concrete schedule) are not part of the identity.
     pub fn fingerprint(&self, prop: &str) -> String {
-        format!("{}:{}:{}", prop, self.signature, serde_json::to_string(&self.witness).unwrap())
+        format!("{}:{}:{}", prop, self.signature, serde_json::to_string(&Self::identity(&self.witness)).unwrap())
+    }
+    pub fn identity(w: &Value) -> Value {
+        match w {
+            Value::Object(o) => Value::Object(o.iter().filter(|(k, _)| !k.starts_with('_')).map(|(k, v)| (k.clone(), v.clone())).collect()),
+            x => x.clone(),
+        }
     }
 }
 
@@ -247,7 +255,7 @@ impl Stats {
     }
     pub fn violation(&mut self, v: Violation) {
         self.raw_violating_cases += 1;
-        let key = format!("{}:{}", v.signature, v.witness);
+        let key = format!("{}:{}", v.signature, Violation::identity(&v.witness));
         if let Some(e) = self.violations.get_mut(&key) {
             e.1 += 1;
         } else if self.violations.len() < MAX_VIOLATIONS {
